@@ -274,11 +274,68 @@ def _lemma_pointwise_bound():
     return [w >= 0, c >= -1, c <= 1], z3.And(c * w <= w, c * w >= -w)
 
 
+# ---- a1^2 + b1^2 <= 1 for non-negative densities.  With A = sum c_j w_j, B = sum s_j w_j, S = sum w_j (c_j^2 + s_j^2 = 1, w_j >= 0):
+#  (1) pointwise: c u + s v <= 1 for every unit vector (u, v);  (2) sum_j w_j (c_j u + s_j v) = u A + v B (normal form, linearity);
+#  (3) that sum is <= S (monotone schema);  (4) with (u, v) = (A, B)/r, r = sqrt(A^2 + B^2): r <= S, i.e. A^2 + B^2 <= S^2.
+def _disc_syms():
+    import z3
+    w, c, sn = (z3.Function(n, T.IntS, T.RealS) for n in ("w_d", "c_d", "s_d"))
+    nd = z3.Int("nd_d")
+    u, v = z3.Reals("u_d v_d")
+    return w, c, sn, nd, u, v
+
+
+def _lemma_disc_pointwise():
+    import z3
+    c, sn, u, v = z3.Reals("c_p s_p u_p v_p")
+    return [c * c + sn * sn == 1, u * u + v * v == 1], c * u + sn * v <= 1
+
+
+def _lemma_disc_linear():
+    from pyvc.calculus import Algebra
+    w, c, sn, nd, u, v = _disc_syms()
+    mixed = SumOf(lambda k: w(T.to_z3(k)) * (c(T.to_z3(k)) * u + sn(T.to_z3(k)) * v))(0, nd)
+    A = SumOf(lambda k: c(T.to_z3(k)) * w(T.to_z3(k)))(0, nd)
+    B = SumOf(lambda k: sn(T.to_z3(k)) * w(T.to_z3(k)))(0, nd)
+    alg = Algebra()
+    pl, pr = alg.from_term(T.to_z3(mixed)), alg.from_term(T.to_z3(u * A + v * B))
+    return [nd >= 1], True if pl == pr else eq(alg.to_term(alg.add(pl, alg.neg(pr))), 0)
+
+
+def _lemma_disc_bound():
+    import z3
+    w, c, sn, nd, u, v = _disc_syms()
+    j = z3.Int("dj")
+    mixed = SumOf(lambda k: w(T.to_z3(k)) * (c(T.to_z3(k)) * u + sn(T.to_z3(k)) * v))
+    S = SumOf(lambda k: w(T.to_z3(k)))
+    hyps = [nd >= 1, z3.ForAll([j], z3.And(w(j) >= 0, w(j) * (c(j) * u + sn(j) * v) <= w(j)))]      # pointwise: lemma (1) times w_j >= 0
+    return hyps, mixed(0, nd) <= S(0, nd)
+
+
+def _lemma_disc_final():
+    import z3
+    A, B, S, r = z3.Reals("A_d B_d S_d r_d")
+    hyps = [r > 0, r * r == A * A + B * B, S > 0, (A / r) * (A / r) + (B / r) * (B / r) == 1, (A / r) * A + (B / r) * B <= S]
+    return hyps, z3.And(r <= S, A * A + B * B <= S * S, (A / S) * (A / S) + (B / S) * (B / S) <= 1)
+
+
+def _lemma_disc_unit():
+    import z3
+    A, B, r = z3.Reals("A_d B_d r_d")
+    return [r > 0, r * r == A * A + B * B], (A / r) * (A / r) + (B / r) * (B / r) == 1
+
+
+LEMMAS_DISC2 = [Lemma("unit_disc.normalised_vector_is_a_unit_vector", _lemma_disc_unit, "(A, B)/r with r^2 = A^2 + B^2 (the case A = B = 0 is trivial: a1 = b1 = 0)"),
+                Lemma("unit_disc.projection_on_a_unit_vector_at_most_one", _lemma_disc_pointwise, "c u + s v <= 1"),
+                Lemma("unit_disc.weighted_projection_is_u_A_plus_v_B", _lemma_disc_linear, "linearity (calculus normal form)"),
+                Lemma("unit_disc.weighted_projection_at_most_total_weight", _lemma_disc_bound, "monotone Sum schema", meta={"sum_monotone": True}),
+                Lemma("unit_disc.a1_squared_plus_b1_squared_at_most_one", _lemma_disc_final, "unit vector along (A, B)")]
+
 LEMMAS_DISC = [Lemma("moment_magnitude_pointwise_bound", _lemma_pointwise_bound, "-w <= c w <= w"),
                Lemma("moment_magnitude_at_most_one", _lemma_moment_magnitude, "|sum c_j w_j| <= sum w_j, quotient <= 1 (monotone Sum schema)", meta={"sum_monotone": True})]
 
 LEMMAS = [Lemma("bin_widths_prefix_sum_step", _lemma_prefix, "induction step of sum_{j<n} dtheta_j = theta_n - theta_0 on an ascending grid with gaps < 180"),
-          Lemma("bin_widths_sum_to_360", _lemma_total, "with the prefix identity (base case n=0 is the empty sum): total of the wrapped bin widths is 360")] + LEMMAS_DISC
+          Lemma("bin_widths_sum_to_360", _lemma_total, "with the prefix identity (base case n=0 is the empty sum): total of the wrapped bin widths is 360")] + LEMMAS_DISC + LEMMAS_DISC2
 
 # ---- operations.integrate_spectral_data: the same quadrature for an arbitrary DataArray on the spectral grid
 def _p_isd(dims):
